@@ -40,6 +40,11 @@ pub struct Layout {
     /// One DIFAT sector more than the FAT sectors need at the end of the DIFAT chain (all
     /// entries FREESECT); only in images that have a DIFAT chain at all.
     pub spare_difat: bool,
+    /// When there is no mini stream (root length 0), the root entry's start sector field is
+    /// not END_OF_CHAIN but whatever the writer had there - zero from a zero-initialised
+    /// entry, or a stale sector number.  MS-CFB constrains the field only if the mini
+    /// stream exists.
+    pub stale_root_start: bool,
 }
 
 impl Layout {
@@ -58,11 +63,12 @@ impl Layout {
             minor_version: *rng.pick(&[0x3Eu16, 0x3E, 0x3E, 0x3E, 0x3B, 0x21, 0x3F, 0]),
             red_tops: rng.chance(1, 6),
             spare_difat: rng.chance(1, 2),
+            stale_root_start: rng.chance(1, 3),
         }
     }
     /// The layout family the library's own writer produces (used as a control).
     pub fn canonical(version: u16) -> Layout {
-        Layout { version, free_pct: 0, dir_gap_pct: 0, free_mini_pct: 0, permute_sectors: false, permute_chains: false, rb_trees: false, min_total_sectors: 0, dirty_slack: false, spare_fat: 0, minor_version: 0x3E, red_tops: false, spare_difat: false }
+        Layout { version, free_pct: 0, dir_gap_pct: 0, free_mini_pct: 0, permute_sectors: false, permute_chains: false, rb_trees: false, min_total_sectors: 0, dirty_slack: false, spare_fat: 0, minor_version: 0x3E, red_tops: false, spare_difat: false, stale_root_start: false }
     }
 }
 
@@ -492,7 +498,17 @@ pub fn synthesize(model: &Model, layout: &Layout, rng: &mut Rng) -> (Vec<u8>, Fe
         wr32(&mut out, base + 72, NOSTREAM);
         wr32(&mut out, base + 76, NOSTREAM);
     }
-    let root_start = if ministream_ids.is_empty() { END } else { ministream_ids[0] };
+    let root_start = if !ministream_ids.is_empty() {
+        ministream_ids[0]
+    } else if layout.stale_root_start {
+        // zero, or the first sector of some stream's chain
+        match stream_ids.first() {
+            Some((_, ids)) if !ids.is_empty() && total % 2 == 1 => ids[0],
+            _ => 0,
+        }
+    } else {
+        END
+    };
     for f in &flats {
         let s = f.slot as usize;
         let base = off(dir_ids[s / per_dir]) + 128 * (s % per_dir);
